@@ -272,6 +272,10 @@ pub fn c20(_p: &Prog, cfg: &Cfg, rep: &mut Report) {
         3 => "[a-z0-9]{1,40}".prop_map(|s| json!(s)),
         2 => svmodel::json::string_strategy().prop_map(|s| json!(s)),
         1 => "cosmwasm1[a-z0-9]{38}".prop_map(|s| json!(s)),
+        // long addresses (CosmWasm allows up to 256 bytes; lengths around common limits)
+        2 => prop_oneof![Just(89usize), Just(90), Just(91), Just(127), Just(128), Just(255), Just(256), 60usize..400].prop_flat_map(|n| proptest::collection::vec(proptest::sample::select(vec!['a', 'z', '0', '9', 'q']), n)).prop_map(|v| json!(v.into_iter().collect::<String>())),
+        // addresses with surrounding / inner whitespace, capitals, empty
+        1 => prop_oneof![Just(String::new()), Just(" ".to_string()), "[ \\t]{0,2}[A-Za-z0-9]{1,12}[ \\n]{0,2}"].prop_map(|s| json!(s)),
     ]
     ;
     // second component: an order of parameterisations under which the handles are put into one
